@@ -13,7 +13,10 @@ THEOREMS = ["Privacy.hidden_inherits", "Output.hidden_inherits", "Output.hidden_
 RULE = ("same runs as C11 (scenario projects: hidden base of a visible class, hidden module imported from, hidden member "
         "overridden and cross-referenced, private objects at every level and by rule, hidden roots, hidden nested classes "
         "and constructors, hidden class between a class and its base; plus random Gen projects) under random lists of "
-        "--privacy rules (exact names and qnmatch patterns, HIDDEN/PRIVATE/PUBLIC, any order) x theme x sidebar depth. "
+        "--privacy rules (exact names and qnmatch patterns, HIDDEN/PRIVATE/PUBLIC, any order; the same exact name in two or "
+        "three rules in both orders, exact-vs-pattern conflicts in both orders, rules for members of hidden containers, "
+        "rules in setup.cfg alone or replaced by the command line) x theme x sidebar depth. The expected privacy of every "
+        "object comes from the rule list through the Lean Privacy model, not from pydoctor. "
         "Direct oracle, from the facts of the real System only: for every object that is not visible - no file named for "
         "it, no anchor, no link whose address or title is the object, no listing cell showing its qualified name, no "
         "all-documents / lunr document, no objects.inv line; for every documented PRIVATE object - every entry found for "
@@ -22,7 +25,13 @@ RULE = ("same runs as C11 (scenario projects: hidden base of a visible class, hi
         "unlinked class-index root names vs the Lean Output model. Non-trivial = the project has a hidden or private "
         "object and a reference (base, cross-reference, annotation) that crosses a module boundary.")
 ASSUMPTIONS = [
-    "each object's privacyClass is read from the real System (the Privacy layer, C13, decides it); the model takes it as given",
+    "the expected privacyClass of every object is computed from the rule list the run was given by the Lean Privacy model "
+    "(driver stream `privacy cli`: parse_privacy_tuple, exact rules newest first, then patterns newest first, default by "
+    "underscore / dunder, `__main__`), propagated through containers by the harness (hidden container or superseded "
+    "definition => not visible); pydoctor's own privacyClass / isVisible is only compared with it. The Output model "
+    "(correspondence) still takes the privacyClass pydoctor computed as its input",
+    "rules given in ./setup.cfg are replaced, not extended, by --privacy values on the command line (configargparse "
+    "precedence, C20): the expected rule list is the command line's if it has any, else the configuration file's",
     "a mention = page file, anchor, link (by address or by title), listing cell whose text is the qualified name, search "
     "document, inventory line; source text quoted in a signature (e.g. the base name in `class Vis(_Hid)`) is not a mention",
     "zope.interface 'from' notes and extension-provided extra_info are not generated (unguarded in the code, see notes)",
@@ -59,6 +68,20 @@ def oracle(ctx: Ctx, res) -> None:
     t: oc.Truth = res["truth"]
     cr = res["crawl"]
     payload = res["case"]
+    if not t.from_rules:
+        # no verdict of the rule list (Lean Privacy model unavailable for this run): nothing else is taken as the truth
+        ctx.count("oracle-skipped:no-expected-privacy")
+        return
+    # -- what pydoctor decided must be what the list of rules says (Lean Privacy model, C13), object by object
+    words = {"H": "HIDDEN", "R": "PRIVATE", "U": "PUBLIC"}
+    for o in t.objs:
+        if o["impl_privacy"] != o["privacy"]:
+            ctx.fail("privacy-differs-from-rule-list:%s-treated-as-%s" % (words[o["privacy"]], words[o["impl_privacy"]]), payload,
+                     "%s is %s by the rules %r but pydoctor treats it as %s" % (
+                         o["full"], words[o["privacy"]], oc.effective_rules(payload), words[o["impl_privacy"]]))
+        elif o["impl_visible"] != o["visible"]:
+            ctx.fail("privacy-differs-from-rule-list:visibility", payload,
+                     "%s should be %svisible by the rules %r" % (o["full"], "" if o["visible"] else "in", oc.effective_rules(payload)))
     hidden = [o for o in t.objs if t.hidden(o)]
     hidden_full = {o["full"]: o for o in hidden}
     hidden_url = {oc.canon_url(o["url"]): o for o in hidden if o["url"] is not None}
